@@ -53,6 +53,9 @@ def _load(path, src):
 
 
 HOP_SRC = "def hop(rest):\n    return rest[0](rest[1:])\n"
+# one function, two call sites: which one is taken depends on how much of the chain is left (for the snippet cache, keyed by
+# file, function and line)
+HOP2_SRC = "def hop(rest):\n    if len(rest) % 2:\n        return rest[0](rest[1:])\n    return rest[0](rest[1:])\n"
 CATCH_SRC = "def catch(rest):\n    try:\n        rest[0](rest[1:])\n    except BaseException as e:\n        return e\n"
 SOLO_SRC = "def catch(rest):\n    try:\n        raise EXC(*ARGS)\n    except BaseException as e:\n        return e\n"
 REC_SRC = ("def rec(n, rest):\n    if n <= 0:\n        return rest[0](rest[1:])\n    return rec(n - 1, rest)\n\n\n"
@@ -91,6 +94,7 @@ FILLER = [
     "sep = 'a\u2028b'  # c\u2029d",
     "ff = 'x\x0cy'  # page\x0cbreak",
     "nel = 'n\x85l'  # \x1c\x1d\x1e",
+    "long = '" + "0123456789" * 40 + "'  # a very long line",
 ]
 RAISERS = [
     "raise exc(*args)",
@@ -101,7 +105,47 @@ RAISERS = [
     "raise exc(*args) from cause",
     "fail(exc, args) ; x = '<b>'",
     "return fail(exc, args) \\\n        or None",
+    "try:\n        fail(exc, args)\n    except Exception:\n        raise  # raised and re-raised",
+    "try:\n        fail(exc, args)\n    except Exception as again:\n        raise again",
 ]
+
+
+_TEMPLATE_ROWS = ["{%% extends 'base' %%}", "<html lang=en>", "  <b>{{ title }}</b>", "key: value  # not python", "$ echo done", "",
+                  "%d items" % 3, "select * from t where a<b and b>c;"]
+
+
+def not_python_file(shape, rng=None):
+    """an existing file that is not tokenizable Python (a template, a data file); code is compiled under its name.
+    -> path.  Shapes: unterminated string, unbalanced brackets, bad dedent, binary-ish bytes, NUL byte, empty, short"""
+    rows = [_TEMPLATE_ROWS[k % len(_TEMPLATE_ROWS)] for k in range(60)]
+    data = None
+    if shape == "unterminated":
+        rows[2] = '  "unterminated \'\'\' quote'
+    elif shape == "brackets":
+        rows[1] = "((( [ {"
+    elif shape == "dedent":
+        rows[0:3] = ["if x:", "        y", "    z"]
+    elif shape == "nul":
+        rows[3] = "a\x00b"
+    elif shape == "binary":
+        data = bytes(range(256)) * 8
+    elif shape == "empty":
+        rows = []
+    elif shape == "short":
+        rows = ["only one ((( line"]
+    else:
+        raise T.MachineryError("unknown shape %r" % (shape,))
+    if data is None:
+        data = ("\n".join(rows) + ("\n" if rows else "")).encode("utf-8")
+    os.makedirs(APP, exist_ok=True)
+    path = os.path.join(APP, "tmpl_%s_%s.txt" % (shape, hashlib.sha1(data).hexdigest()[:8]))
+    if not os.path.exists(path):
+        with open(path, "wb") as f:
+            f.write(data)
+    return path
+
+
+NOT_PYTHON = ["unterminated", "brackets", "dedent", "binary", "empty", "short"]  # ("nul": CPython 3.12 tokenize answers SystemError - not clikit)
 
 
 def make_source(rng, at_top=False):
@@ -142,7 +186,7 @@ MESSAGES = [
     "a <b", "tail<", "</>", "<fg=red>r</fg=blue>", "50% <done>", "quote \" and ' here", "key", "a" * 120,
     "line1\\\nline2", "<error>", "if a<b>c: pass", "{} {0} %s",
     # closes a tag it did not open and leaves another one open; leaves one open; closes unopened ones
-    "</info> x <error>", "</b> y <info>z", "a closing </b> tag", "</error>", "<fg=red>r", "x</fg=blue> <b>",
+    "\n\n", "trailing line end\n", "</info> x <error>", "</b> y <info>z", "a closing </b> tag", "</error>", "<fg=red>r", "x</fg=blue> <b>",
 ]
 EXC_KINDS = ["RuntimeError", "ValueError", "KeyError", "OSError", "long", "clikit", "ZeroDivisionError", "TypeError"]
 
@@ -181,6 +225,8 @@ def raise_case(case):
             target = ns["target"]
         elif origin == "named":  # compiled under a name that is no path at all and looks like markup
             target = _load(case["fname"], case["src"])["target"]
+        elif origin == "notpython":  # compiled under the name of an existing file that is not Python
+            target = _load(not_python_file(case["shape"]), case["src"])["target"]
         elif origin == "gone":  # compiled for a path that does not exist
             target = _load(os.path.join(APP, "gone_%s.py" % hashlib.sha1(case["src"].encode("utf-8")).hexdigest()[:8]), case["src"])["target"]
         else:
@@ -189,7 +235,9 @@ def raise_case(case):
         chain = []
         for k, hop in enumerate(case["chain"]):
             d = LIB if hop["ign"] else APP
-            if hop["kind"] == "hop":
+            if hop["kind"] == "hop2":
+                chain.append(_load(_write(d, "hoptwo", HOP2_SRC + salt), HOP2_SRC)["hop"])
+            elif hop["kind"] == "hop":
                 chain.append(_load(_write(d, "hop%d" % k, HOP_SRC + "# %d\n" % k + salt), HOP_SRC)["hop"])
             else:
                 chain.append(_load(_write(d, "rec%d" % k, REC_SRC + "# %d\n" % k + salt), REC_SRC)["entry"](hop["kind"], hop["n"]))
@@ -227,7 +275,7 @@ def source_info(path):
         try:
             with open(path, encoding="utf-8") as f:
                 text = f.read()
-        except OSError:
+        except (OSError, UnicodeDecodeError):  # no file, or a file that is no text: there is no source to compare with
             text = None
         if text is None or text == "":
             _SRC_CACHE[path] = None
@@ -273,10 +321,11 @@ def project(text, frames, simple):
     if simple:
         obs["lines"] = [cells(x) for x in lines]
         return obs
-    # the location line of the raising frame: the last "at file:line in fn" line that only snippet rows follow
+    # the location line of the raising frame: the last "at file:line in fn" line directly followed by a snippet row, a
+    # blank line or the end of the report (solutions may come after the snippet)
     at = None
     for k in range(len(lines) - 1, -1, -1):
-        if _AT.match(lines[k]) and all(_ROW.match(x) or not x.strip() for x in lines[k + 1:]):
+        if _AT.match(lines[k]) and (k + 1 == len(lines) or _ROW.match(lines[k + 1]) or not lines[k + 1].strip()):
             at = k
             break
     end = len(lines) if at is None else at
@@ -319,8 +368,9 @@ def project(text, frames, simple):
         rows = []
         for x in lines[at + 1:]:
             r = _ROW.match(x)
-            if r:
-                rows.append(_row(r))
+            if not r:
+                break  # the snippet is the block of rows right below the location line
+            rows.append(_row(r))
         last = frames[-1] if frames else None
         obs["snippets"].append(_snippet(last["path"] if last else None, last["lineno"] if last else 0, rows))
     return obs
@@ -337,6 +387,37 @@ def real_frames(e):
     return out
 
 
+SOLUTION_SHAPES = ["plain", "nodesc", "notitle", "empty", "nolinks", "onelink"]
+
+
+class _Solutions(object):
+    """a solution provider repository (the route ExceptionTrace(e, solution_provider_repository=...)) handing out crashtest
+    BaseSolution objects: plain text; without description (BaseSolution's default None); without title; empty strings; with /
+    without documentation links.  (Solution texts are authored markup - poetry's carry style tags - so none of them is
+    adversarial markup.)"""
+
+    def __init__(self, shape):
+        self.shape = shape
+
+    def get_solutions_for_exception(self, exception):
+        from crashtest.contracts.base_solution import BaseSolution
+
+        shape = self.shape
+        if shape == "nodesc":
+            sol = BaseSolution("Do this")
+        elif shape == "notitle":
+            sol = BaseSolution(None, "Something can be done.")
+        elif shape == "empty":
+            sol = BaseSolution("", "")
+        else:
+            sol = BaseSolution("Check the configuration.", "The value is not accepted.\nSee the manual")
+        if shape == "plain":
+            sol.documentation_links.extend(["https://example.invalid/doc#a", "https://example.invalid/doc#b"])
+        elif shape == "onelink":
+            sol.documentation_links.append("https://example.invalid/doc")
+        return [sol, BaseSolution("Second.", "Another hint")] if shape in ("plain", "nodesc") else [sol]
+
+
 def run_history(case, shared=None):
     """the case's exception is raised once and rendered once per entry of case["renders"] ([{"pat", "verb"}]; pat = which
     directory ignore_files_in() gets: "none" | "lib" | "app") in this process -> one "render" event per render"""
@@ -348,7 +429,8 @@ def run_history(case, shared=None):
     base = real_frames(e)
     msg = str(e)
     events = []
-    one = ExceptionTrace(e) if case.get("one_trace") else None  # ONE trace object rendered several times
+    repo = _Solutions(case.get("solshape", "plain")) if case.get("solutions") else None
+    one = ExceptionTrace(e, repo) if case.get("one_trace") else None  # ONE trace object rendered several times
     for r in case["renders"]:
         frames = [dict(f, ign=(f["dir"] == r["pat"])) for f in base]
         utf8 = r.get("utf8", case["utf8"])
@@ -358,10 +440,11 @@ def run_history(case, shared=None):
             utf8 = bio.supports_utf8()
         bio.clear_output()
         bio.set_verbosity({0: F.NORMAL, 1: F.VERBOSE, 2: F.VERY_VERBOSE, 3: F.DEBUG}[r["verb"]])
-        trace = one if one is not None else ExceptionTrace(e)
+        trace = one if one is not None else ExceptionTrace(e, repo)
         trace.ignore_files_in(None)
         if r["pat"] != "none":
-            trace.ignore_files_in("^" + re.escape({"lib": LIB, "app": APP}[r["pat"]] + os.sep))
+            pattern = "^" + re.escape({"lib": LIB, "app": APP}[r["pat"]] + os.sep)
+            trace.ignore_files_in(re.compile(pattern) if r.get("compiled") else pattern)  # both forms are accepted
         esc = ""
         try:
             trace.render(bio, case["simple"])
@@ -371,7 +454,8 @@ def run_history(case, shared=None):
             esc = type(x).__name__
         c = {"simple": case["simple"], "verb": r["verb"], "utf8": utf8, "ignoring": r["pat"] != "none", "name": cells(type(e).__name__),
              "msg": [cells(x) for x in msg.split("\n")], "frames": [{"ign": f["ign"], "dir": f["dir"]} for f in frames],
-             "recursion": any(h["kind"] != "hop" for h in case["chain"]), "origin": case["origin"]}
+             "recursion": any(h["kind"] not in ("hop", "hop2") for h in case["chain"]),
+             "origin": case["origin"] + (("+" + case.get("solshape", "plain")) if case.get("solutions") else "")}
         o = {"esc": esc, "lines": [], "head": [], "listing": [], "snippets": []}
         if not esc:
             o.update(project(bio.fetch_output(), frames, case["simple"]))
@@ -384,6 +468,9 @@ def run_history(case, shared=None):
 def run_trace(case):
     """one render, a history of renders of one exception, or - case["then"] = a second case - two reports written one after
     the other on ONE I/O (what the first leaves on the formatter's style stack is there for the second)"""
+    if case.get("then_fresh"):  # two exceptions, two trace objects, two I/Os - one process (class-level caches)
+        second = case["then_fresh"]
+        return run_history(dict(case, renders=renders_of(case))) + run_history(dict(second, renders=renders_of(second)))
     if not case.get("then"):
         return run_history(dict(case, renders=renders_of(case)))
     from clikit.io.buffered_io import BufferedIO
@@ -413,8 +500,21 @@ def random_pair_case(rng, k):
     return a
 
 
+def cache_pair_case(rng, k):
+    """two different exceptions that pass through the same function of the same file at different lines, both rendered at
+    debug verbosity (the listing's snippets go through the class-level cache)"""
+    a, b = random_render_case(rng), random_render_case(rng)
+    for c in (a, b):
+        c.update(origin="file", simple=False, verb=3, ignoring=False, salt="cache pair %d" % k, first_ign=False, target_ign=False)
+    a["chain"] = [{"kind": "hop2", "ign": False, "n": 0}]
+    b["chain"] = [{"kind": "hop2", "ign": False, "n": 0}, {"kind": "hop", "ign": False, "n": 0}]
+    b["utf8"] = a["utf8"]
+    a["then_fresh"] = b
+    return a
+
+
 def renders_of(case):
-    return case.get("renders") or [{"pat": "lib" if case["ignoring"] else "none", "verb": case["verb"]}]
+    return case.get("renders") or [{"pat": "lib" if case["ignoring"] else "none", "verb": case["verb"], "compiled": bool(case.get("compiled"))}]
 
 
 def run_render(case):
@@ -423,7 +523,7 @@ def run_render(case):
 
 
 def random_render_case(rng):
-    origin = rng.choice(["file"] * 8 + ["exec", "gone", "named"])
+    origin = rng.choice(["file"] * 8 + ["exec", "gone", "named", "notpython", "notpython"])
     chain = []
     for _ in range(rng.choice([0, 0, 1, 1, 2, 3, 5])):
         x = rng.random()
@@ -434,7 +534,9 @@ def random_render_case(rng):
         else:
             chain.append({"kind": "ping", "ign": rng.random() < 0.3, "n": rng.choice([1, 2, 5, 20])})
     kind = rng.choice(EXC_KINDS)
-    return {"origin": origin, "fname": rng.choice(["</error>", "<b>", "x</info>y", "<template>", "dir\\"]),
+    return {"solutions": origin == "file" and rng.random() < 0.25, "solshape": rng.choice(SOLUTION_SHAPES), "shape": rng.choice(NOT_PYTHON),
+            "compiled": rng.random() < 0.4,
+            "origin": origin, "fname": rng.choice(["</error>", "<b>", "x</info>y", "<template>", "dir\\"]),
             "src": make_source(rng, at_top=rng.random() < 0.15), "exc": kind, "msg": rng.choice(MESSAGES),
             "chain": chain, "verb": rng.choice([0, 0, 1, 2, 3, 3]), "utf8": rng.random() < 0.7, "ignoring": rng.random() < 0.5,
             "simple": rng.random() < 0.2, "first_ign": rng.random() < 0.2, "target_ign": origin == "file" and rng.random() < 0.15}
@@ -447,7 +549,7 @@ def random_history_case(rng, k):
     case["simple"] = False
     case["salt"] = "history %d %d" % (k, rng.randint(0, 10 ** 9))
     case["renders"] = [{"pat": rng.choice(["none", "lib", "app", "lib", "app"]), "verb": rng.choice([0, 1, 2, 2, 3]),
-                        "utf8": rng.random() < 0.5} for _ in range(rng.choice([2, 3]))]
+                        "utf8": rng.random() < 0.5, "compiled": rng.random() < 0.4} for _ in range(rng.choice([2, 3]))]
     case["one_trace"] = rng.random() < 0.6  # the same ExceptionTrace object for every render of the history
     return case
 
@@ -581,7 +683,8 @@ def run_snippet(inp):
     for ln in lines:
         r = _ROW.match(ln)
         if not r:
-            raise T.MachineryError("a snippet row of unexpected shape: %r" % (ln,))
+            ev["esc"], ev["rows"] = "shape", []  # not a row at all: an observation (P.renders), not a harness failure
+            return ev
         ev["rows"].append({"num": int(r.group(2)), "marked": r.group(1) is not None})
     return ev
 
@@ -622,7 +725,7 @@ def run(ctx):
         "backslash, string with an unbalanced closing tag, string and comment holding U+2028 / form feed / U+0085): every row not touched by a multi-row token is shown verbatim. "
         "Every emitted input is replayed on the real classes and compared.  Exceptions raised through generated source files "
         "(failing statement at varying positions incl. the first rows, multi-row statements and strings, comments, tabs, "
-        "non-ASCII, markup-like text, characters str.splitlines() takes for line ends: U+2028/2029, FF, NEL, FS/GS/RS), through exec'd and file-less code (also compiled under file names that look like style tags), with 33 adversarial messages x 8 exception kinds, "
+        "non-ASCII, markup-like text, characters str.splitlines() takes for line ends: U+2028/2029, FF, NEL, FS/GS/RS), through exec'd and file-less code (also compiled under file names that look like style tags, and under the names of existing files that are not Python: unterminated string, unbalanced brackets, bad dedent, NUL byte, binary bytes, empty, shorter than the line number), with 33 adversarial messages x 8 exception kinds, "
         "a cause, call chains through ignored / not ignored modules and recursion (direct, mutual) up to depth 60 are rendered "
         "at every verbosity, UTF-8 on/off, with/without an ignore pattern, simple/full; what was written is tokenised "
         "(head lines, listing entries, snippet rows with the source rows) and ErrorReportTrace decides every P-clause; the "
@@ -744,6 +847,13 @@ def _run(ctx, quick):
         cases.append(dict(case, kind="history"))
         ctx.count()
         ctx.nontriv(("hist", t))
+    # ---- code -> spec: two exceptions through one function at two lines, at debug (snippet cache)
+    for t in range(40 if quick else 500):
+        case = cache_pair_case(ctx.rng, t)
+        traces.append(run_trace(case))
+        cases.append(dict(case, kind="pair"))
+        ctx.count()
+        ctx.nontriv(("cache", t))
     # ---- code -> spec: two reports on one I/O
     for t in range(150 if quick else 2000):
         case = random_pair_case(ctx.rng, t)
